@@ -453,6 +453,79 @@ fn run_mirror(seed: u64, budget: usize) -> ! {
     out(None, checked)
 }
 
+// ------------------------------------------------------------------ presentation independence (C10)
+fn show_l(f: &F, l: &[String]) -> String {
+    match f { F::Top => "c(v)".into(), F::Bot => "c(f)".into(), F::Atom(i) => l[*i].clone(), F::Not(a) => format!("neg({})", show_l(a, l)),
+        F::And(a, b) => format!("and({},{})", show_l(a, l), show_l(b, l)), F::Or(a, b) => format!("or({},{})", show_l(a, l), show_l(b, l)), F::Imp(a, b) => format!("imp({},{})", show_l(a, l), show_l(b, l)),
+        F::Xor(a, b) => format!("xor({},{})", show_l(a, l), show_l(b, l)), F::Iff(a, b) => format!("iff({},{})", show_l(a, l), show_l(b, l)) }
+}
+type LM = BTreeMap<String, Option<bool>>;
+/// (grounded, complete, stable, two-valued) as label -> value maps, the label order, and the printed grounded line
+fn answers(text: &str, sort: usize) -> Result<(LM, BTreeSet<LM>, BTreeSet<LM>, BTreeSet<LM>, Vec<String>, String), String> {
+    let parser = AdfParser::default();
+    parser.parse()(text).map_err(|e| format!("parse error {:?}", e))?;
+    match sort { 1 => { parser.varsort_lexi(); } 2 => { parser.varsort_alphanum(); } _ => {} }
+    let mut adf = Adf::from_parser(&parser);
+    let n = adf.ac.len();
+    let names: Vec<String> = (0..n).map(|i| adf.ordering.name(Var(i)).unwrap_or_default()).collect();
+    let lm = |v: &[Term]| -> LM { v.iter().enumerate().map(|(i, t)| (names[i].clone(), tv(t))).collect() };
+    let g = adf.grounded();
+    let printed = format!("{}", adf.print_dictionary().print_interpretation(&g));
+    let co: BTreeSet<LM> = adf.complete().map(|v| lm(&v)).collect();
+    let st: BTreeSet<LM> = adf.stable().map(|v| lm(&v)).collect();
+    let (s, r) = crossbeam_channel::unbounded();
+    adf.two_val_nogood_channel(Heuristic::Simple, s);
+    let tw: BTreeSet<LM> = r.iter().map(|v| lm(&v)).collect();
+    Ok((lm(&g), co, st, tw, names, printed))
+}
+fn run_c10(seed: u64, budget: usize) -> ! {
+    let mut rng = Rng(seed.wrapping_mul(0xD1B54A32D192ED03) | 1);
+    let pool = ["a", "b", "B", "a10", "a9", "a1", "zz", "z", "10", "9", "b2", "Ab", "ab", "s", "ac", "c", "neg", "x1"];
+    let mut checked = 0;
+    'round: for round in 0..budget {
+        if n_found() >= 3 { break; }
+        let n = 2 + rng.below(3);
+        let mut labels: Vec<String> = vec![];
+        while labels.len() < n { let c = pool[rng.below(pool.len())].to_string(); if !labels.contains(&c) { labels.push(c); } }
+        let fs: Vec<F> = (0..n).map(|_| gen_f(&mut rng, n, 1 + (round % 3))).collect();
+        let mut facts: Vec<String> = (0..n).map(|i| format!("s({}).", labels[i])).collect();
+        let acs: Vec<String> = (0..n).map(|i| format!("ac({},{}).", labels[i], show_l(&fs[i], &labels))).collect();
+        let text: String = facts.concat() + &acs.concat();
+        let base = match answers(&text, 0) { Ok(b) => b, Err(e) => { record(format!("C10: `{}`: {}", text, e)); continue 'round; } };
+        // the same facts in another order (statements shuffled, conditions shuffled, conditions may come first), other layout
+        for i in (1..n).rev() { let j = rng.below(i + 1); facts.swap(i, j); }
+        let mut acs2 = acs.clone();
+        for i in (1..n).rev() { let j = rng.below(i + 1); acs2.swap(i, j); }
+        let sep = ["", " ", "\n", "\n\n "][rng.below(4)];
+        let mut all: Vec<String> = facts.iter().chain(acs2.iter()).cloned().collect();
+        if rng.below(2) == 0 { for i in (1..all.len()).rev() { let j = rng.below(i + 1); all.swap(i, j); } }
+        let text2: String = all.iter().map(|f| format!("{}{}", f, sep)).collect();
+        // an injective renaming
+        let ren: Vec<String> = labels.iter().map(|l| format!("q{}q", l)).collect();
+        let text3: String = (0..n).map(|i| format!("s({}).", ren[i])).collect::<String>() + &(0..n).map(|i| format!("ac({},{}).", ren[i], show_l(&fs[i], &ren))).collect::<String>();
+        for sort in 0..3 {
+            for (which, t) in [("as written", &text), ("reordered", &text2)] {
+                checked += 1;
+                let got = match answers(t, sort) { Ok(b) => b, Err(e) => { record(format!("C10: `{}` ({}): {}", t, which, e)); continue 'round; } };
+                if got.0 != base.0 || got.1 != base.1 || got.2 != base.2 || got.3 != base.3 {
+                    record(format!("C10: answers depend on presentation: `{}` ({}, sort mode {}) vs `{}` (no sort): grounded {:?} vs {:?}; complete {} vs {}; stable {} vs {}; two-valued {} vs {}", t.replace('\n', "\\n"), which, sort, text, got.0, base.0, got.1.len(), base.1.len(), got.2.len(), base.2.len(), got.3.len(), base.3.len()));
+                    continue 'round;
+                }
+                if sort == 1 { let mut sorted_names = got.4.clone(); sorted_names.sort_by(|x, y| x.as_bytes().cmp(y.as_bytes())); if sorted_names != got.4 { record(format!("C10: lexicographic sorting reports the statements as {:?} for `{}`", got.4, t)); continue 'round; } }
+                // the printed line labels position i with the i-th label and its own value
+                let exp: String = got.4.iter().map(|l| format!("{}({}) ", match got.0[l] { Some(true) => "T", Some(false) => "F", None => "u" }, l)).collect::<String>() + "\n";
+                if got.5 != exp { record(format!("C10: printed grounded interpretation {:?} but the labelled values are {:?} (`{}`, sort mode {})", got.5, exp, t, sort)); continue 'round; }
+            }
+        }
+        let r3 = match answers(&text3, rng.below(3)) { Ok(b) => b, Err(e) => { record(format!("C10: `{}` (renamed): {}", text3, e)); continue 'round; } };
+        let back = |m: &LM| -> LM { m.iter().map(|(k, v)| (k[1..k.len() - 1].to_string(), *v)).collect() };
+        if back(&r3.0) != base.0 || r3.1.iter().map(back).collect::<BTreeSet<LM>>() != base.1 || r3.2.iter().map(back).collect::<BTreeSet<LM>>() != base.2 {
+            record(format!("C10: answers change under renaming: `{}` vs `{}`", text3, text)); continue 'round;
+        }
+    }
+    out(None, checked)
+}
+
 fn main() {
     let a: Vec<String> = std::env::args().collect();
     let seed: u64 = a.get(2).and_then(|s| s.parse().ok()).unwrap_or(1);
@@ -460,7 +533,7 @@ fn main() {
     let _ = (BTreeMap::<u8, u8>::new(), HashMap::<u8, u8>::new());
     match a.get(1).map(|s| s.as_str()) {
         Some("bdd") => run_bdd(seed, budget), Some("adf") => run_adf(seed, budget), Some("ng") => run_ng(seed, budget), Some("iters") => run_iters(seed, budget),
-        Some("c04") => run_c04(seed, budget), Some("persist") => run_persist(seed, budget), Some("mirror") => run_mirror(seed, budget),
+        Some("c04") => run_c04(seed, budget), Some("persist") => run_persist(seed, budget), Some("mirror") => run_mirror(seed, budget), Some("c10") => run_c10(seed, budget),
         _ => { eprintln!("usage: verif_replay <bdd|adf|ng|iters|persist|mirror> <seed> <budget>"); std::process::exit(2) }
     }
 }
